@@ -941,18 +941,19 @@ def oracle_durations(spec):
             if not isinstance(acc, FSD):
                 o.add("duration-add-not-a-duration", got=repr(acc)[:100])
                 return o
-            kept.append((acc, call(str, acc), _exact(acc), call(float, acc)))
+            kept.append((acc, call(str, acc), _exact(acc), call(float, acc), G.dur_fold(parts[: k + 1])[2]))
         # reuse earlier intermediates as left and right operands
         for r in spec["reuse"]:
             left = kept[r % len(kept)][0]
             call(lambda: left + objs[-1])
             call(lambda: objs[0] + left)
-        for k, (obj, text, exact, f) in enumerate(kept):
+        for k, (obj, text, exact, f, bounded) in enumerate(kept):
             if call(str, obj) != text or _exact(obj) != exact or call(float, obj) != f:
                 o.add("duration-add-modified-operand", step=k, before=text, after=str(obj))
                 break
             back = call(FSD.from_string, text)
-            if call(str, back) != text or abs(call(float, back) - f) > 1e-12:
+            # beyond the class's integer bound the folded value is an approximation (documented)
+            if call(str, back) != text or (not bounded and abs(call(float, back) - f) > 1e-12):
                 o.add("duration-str-not-fixpoint", first=text, second=str(back))
                 break
         for obj, c in zip(objs, parts):
